@@ -605,6 +605,19 @@ func (s *Sim) Step(n *Node, what string, fn func()) (ran bool) {
 	return true
 }
 
+// DisarmCrashes calls off every kill that is armed and has not fired yet (a kill armed at the k-th commit of a step
+// waits for a step with that many commits - a synchronization, typically - which may be a long time coming).
+func (s *Sim) DisarmCrashes() {
+	for _, n := range s.Nodes {
+		if n.FS != nil && (n.CrashArmed || n.armPending) {
+			n.FS.Disarm()
+			n.CrashArmed, n.armPending, n.ArmThisStepOnly = false, false, false
+			n.onDied = nil
+			s.Stats["armed_kill_called_off"]++
+		}
+	}
+}
+
 // Stalled reports whether node n's process is suspended right now.
 func (s *Sim) Stalled(n *Node) bool { return n.StalledUntil > s.Now() }
 
